@@ -53,6 +53,8 @@ type c06Case struct {
 	Kind      string  `json:"kind"`      // malformed: which way the text fails to be an encoding
 	TextForm  string  `json:"textForm"`  // json: pretty | escaped; yaml: flow -- another spelling of the same value
 	MtName    string  `json:"mtName"`    // json / yaml: another media type name the library registers the decoder under
+	EncCT     bool    `json:"encCT"`     // multipart: the media type declares encoding.<property>.contentType for every property
+	Entry     string  `json:"entry"`     // "request": ValidateRequest instead of ValidateRequestBody
 }
 
 // c06JSONEscaped renders a tagged value as JSON with every character of every string and key written as a \uXXXX escape.
@@ -381,7 +383,16 @@ func c06Run(c *Case) []any {
 				body = []byte(strings.Join(pairs, "&"))
 			}
 		case "multipart":
-			content["multipart/form-data"] = map[string]any{"schema": schema}
+			mmt := map[string]any{"schema": schema}
+			if tc.EncCT {
+				pct := map[string]string{"json": "application/json", "file": "application/octet-stream"}[tc.PartCT]
+				encs := map[string]any{}
+				for _, k := range []string{"l", "ls", "n", "o", "ro", "s"} {
+					encs[k] = map[string]any{"contentType": pct}
+				}
+				mmt["encoding"] = encs
+			}
+			content["multipart/form-data"] = mmt
 			var buf bytes.Buffer
 			w := multipart.NewWriter(&buf)
 			switch tc.Boundary {
@@ -513,7 +524,11 @@ func c06Run(c *Case) []any {
 		Options: &openapi3filter.Options{ExcludeReadOnlyValidations: tc.ExcludeRO, SkipSettingDefaults: !tc.SetDefaults}}
 	var verr error
 	if p, _ := guard(func() {
-		verr = openapi3filter.ValidateRequestBody(context.Background(), input, route.Operation.RequestBody.Value)
+		if tc.Entry == "request" {
+			verr = openapi3filter.ValidateRequest(context.Background(), input)
+		} else {
+			verr = openapi3filter.ValidateRequestBody(context.Background(), input, route.Operation.RequestBody.Value)
+		}
 	}); p {
 		line["verdict"] = "panic"
 	} else {
